@@ -15,7 +15,7 @@ from fractions import Fraction
 import numpy as _np
 import scipy.sparse as _sp
 
-from .sym import Sym, as_sym, has_sym, demote, root, sym_abs, OutOfReach, Concretised, ctx
+from .sym import sarr, SArr, Sym, as_sym, has_sym, demote, root, sym_abs, OutOfReach, Concretised, ctx
 from . import linsolve
 
 _ACTIVE = [False]
@@ -461,12 +461,12 @@ class NpProxy:
     # ---- allocators
     def zeros(self, shape, dtype=None, **k):
         if _ACTIVE[0] and _is_float_dtype(dtype):
-            return _np.zeros(shape, dtype=object)
+            return sarr(_np.zeros(shape, dtype=object))
         return _np.zeros(shape, dtype=dtype or float, **k)
 
     def empty(self, shape, dtype=None, **k):
         if _ACTIVE[0] and _is_float_dtype(dtype):
-            return _np.zeros(shape, dtype=object)
+            return sarr(_np.zeros(shape, dtype=object))
         return _np.empty(shape, dtype=dtype or float, **k)
 
     def ones(self, shape, dtype=None, **k):
@@ -513,8 +513,13 @@ class NpProxy:
     # ---- conversions with dtype=float
     def _conv(self, fn, a, dtype=None, *args, **k):
         if _ACTIVE[0] and dtype is not None and _is_float_dtype(dtype):
-            return fn(a, *args, dtype=object, **k)
-        return fn(a, *args, dtype=dtype, **k) if dtype is not None else fn(a, *args, **k)
+            return sarr(fn(a, *args, dtype=object, **k))
+        out = fn(a, *args, dtype=dtype, **k) if dtype is not None else fn(a, *args, **k)
+        return sarr(out) if _ACTIVE[0] else out
+
+    def concatenate(self, arrays, *a, **k):
+        out = _np.concatenate(arrays, *a, **k)
+        return sarr(out) if _ACTIVE[0] else out
 
     def array(self, a, dtype=None, *args, **k):
         return self._conv(_np.array, a, dtype, *args, **k)
